@@ -208,7 +208,7 @@ func cmdCheck(args []string) int {
 	extra := r.extraObligations(prop, *tier)
 	sel = append(sel, extra...)
 	kfs := loadKnownFindings()
-	runParallel(len(sel), 6, func(i int) {
+	runParallel(len(sel), 8, func(i int) {
 		ob := sel[i]
 		if ob.Status != "" {
 			return
